@@ -50,8 +50,18 @@ static int p_called, p_depth;
 static unsigned char *p_buf;
 static size_t p_len;
 
+/* A correct loop issues at most one call per schedule entry plus one per byte; anything far beyond
+ * that is a loop that no longer makes progress: report it instead of eating memory. */
+static size_t call_limit;
+
 static void add_call(size_t off, size_t req, long len)
 {
+	if (call_limit && ncalls > call_limit)
+	{
+		printf("RUNAWAY-LOOP after %zu transfer calls (last: off=%zu req=%zu ret=%ld)\n", ncalls, off, req, len);
+		fflush(stdout);
+		_exit(97);
+	}
 	if (ncalls == capcalls)
 	{
 		capcalls = capcalls ? capcalls * 2 : 64;
@@ -96,7 +106,8 @@ ssize_t __wrap_write(int fd, const void *buf, size_t count)
 		capdeliv = (ndeliv + d) * 2 + 64;
 		deliv = (unsigned char *)realloc(deliv, capdeliv);
 	}
-	memcpy(deliv + ndeliv, buf, d);
+	if (d)
+		memcpy(deliv + ndeliv, buf, d);
 	ndeliv += d;
 	if (mode == M_WFILE)
 	{
@@ -130,7 +141,8 @@ ssize_t __wrap_read(int fd, void *buf, size_t count)
 	{
 		if (k > rlen - rpos)
 			k = rlen - rpos;
-		memcpy(buf, rdata + rpos, k);
+		if (k)
+			memcpy(buf, rdata + rpos, k);
 		rpos += k;
 		ret = (ssize_t)k;
 	}
@@ -147,7 +159,8 @@ struct json_object *__wrap_json_tokener_parse_ex(struct json_tokener *tok, const
 	p_depth = tok->max_depth;
 	free(p_buf);
 	p_buf = (unsigned char *)malloc(n ? n : 1);
-	memcpy(p_buf, str, n);
+	if (n)
+		memcpy(p_buf, str, n);
 	p_len = n;
 	return __real_json_tokener_parse_ex(tok, str, len);
 }
@@ -300,6 +313,7 @@ static void do_write(int which, int flags, const char *tree, const char *ser, co
 	}
 	parse_sched(sched);
 	reset_logs();
+	call_limit = nsch + 64 + (!strcmp(ser, "NULL") ? 0 : strlen(ser));
 	int fds0 = count_fds();
 	clear_err();
 	int ret;
@@ -372,7 +386,8 @@ static void report_read(struct json_object *res, const unsigned char *data, size
 		if (tok)
 		{
 			char *copy = (char *)malloc(len + 1);
-			memcpy(copy, data, len);
+			if (len)
+				memcpy(copy, data, len);
 			copy[len] = 0;
 			memobj = __real_json_tokener_parse_ex(tok, copy, (int)len);
 			desc = json_tokener_error_desc(json_tokener_get_error(tok));
@@ -517,6 +532,7 @@ int main(void)
 			reset_logs();
 			rdata = data;
 			rlen = len;
+			call_limit = nsch + 64 + len;
 			int fds0 = count_fds();
 			clear_err();
 			mode = M_RMEM;
@@ -551,6 +567,7 @@ int main(void)
 			}
 			parse_sched(W[4]);
 			reset_logs();
+			call_limit = nsch + 64 + len;
 			int fds0 = count_fds();
 			clear_err();
 			mode = M_RFILE;
